@@ -17,6 +17,9 @@ import (
 const (
 	growthLimit    = 9.0
 	growthMinTicks = 1
+	// below this many allocated bytes in the larger run nothing is said about
+	// memory traffic (start-up allocations of the runtime dominate)
+	growthMinAlloc = 8 << 20
 )
 
 type growthDim struct {
@@ -26,6 +29,9 @@ type growthDim struct {
 	// file: the n-sized data goes into a dictionary file instead of stdin
 	file  string
 	stdin string
+	// big: also compared at a much larger n (one element costs little, and a
+	// small quadratic coefficient only shows there)
+	big bool
 }
 
 func repeatIdx(n int, f func(i int) string) string {
@@ -41,9 +47,9 @@ var growthDims = []growthDim{
 		input: func(n int) string { return strings.Repeat("C[1] G_7/B[1,1/2]{txt=hi} Am[2]\n", n) }},
 	{name: "text-items-degree", cmds: [][]string{{"text", "conv", "degree"}},
 		input: func(n int) string { return strings.Repeat("1[1] 5_7/7[1,1/2]{txt=hi} 6m[2]\n", n) }},
-	{name: "text-values", cmds: [][]string{{"text", "parse"}, {"text", "conv", "syllable"}},
+	{name: "text-values", big: true, cmds: [][]string{{"text", "parse"}, {"text", "conv", "syllable"}},
 		input: func(n int) string { return "C[1" + strings.Repeat(",1/2", n) + "]\n" }},
-	{name: "text-meta", cmds: [][]string{{"text", "parse"}, {"text", "conv", "syllable"}},
+	{name: "text-meta", big: true, cmds: [][]string{{"text", "parse"}, {"text", "conv", "syllable"}},
 		input: func(n int) string {
 			return "C[1]{k0=v" + repeatIdx(n, func(i int) string { return fmt.Sprintf(",k%d=v%d", i+1, i) }) + "}\n"
 		}},
@@ -55,11 +61,11 @@ var growthDims = []growthDim{
 		input: func(n int) string {
 			return strings.Repeat(goodInst+"- chord:\n    degree: \"5\"\n    name: \"7\"\n    base: \"3\"\n  values:\n    - \"1\"\n    - \"1/2\"\n  meta:\n    txt: hi\n- values:\n    - \"2\"\n", n)
 		}},
-	{name: "yaml-values", cmds: [][]string{{"write"}, {"write", "event"}, {"write", "parse"}},
+	{name: "yaml-values", big: true, cmds: [][]string{{"write"}, {"write", "event"}, {"write", "parse"}},
 		input: func(n int) string {
 			return "- chord:\n    degree: \"1\"\n    name: \"\"\n  values:\n" + strings.Repeat("    - \"1/4\"\n", n)
 		}},
-	{name: "yaml-meta", cmds: [][]string{{"write"}, {"write", "event"}, {"write", "parse"}, {"write", "conv", "-c", "cmt"}},
+	{name: "yaml-meta", big: true, cmds: [][]string{{"write"}, {"write", "event"}, {"write", "parse"}, {"write", "conv", "-c", "cmt"}},
 		input: func(n int) string {
 			return "- chord:\n    degree: \"1\"\n    name: \"\"\n  values:\n    - \"1\"\n  meta:\n" + repeatIdx(n, func(i int) string { return fmt.Sprintf("    k%d: v%d\n", i, i) })
 		}},
@@ -77,6 +83,24 @@ var growthDims = []growthDim{
 				return fmt.Sprintf("- name: X%d\n  meta:\n    display: x%d\n  extends: MajorTriad\n  attributes:\n    - Minor7\n", i, i)
 			})
 		}},
+	{name: "dict-faulty-chords", cmds: [][]string{{"info", "chord", "list"}, {"write"}, {"info", "chord", "describe", "-t", "C"}},
+		file: "--chord", stdin: "- chord:\n    degree: \"1\"\n    name: \"\"\n  values:\n    - \"1\"\n",
+		input: func(n int) string {
+			return repeatIdx(n, func(i int) string {
+				switch i % 3 {
+				case 0:
+					return fmt.Sprintf("- name: Bad%d\n  meta:\n    display: bad%d\n  attributes:\n    - NoSuchAttribute%d\n", i, i, i)
+				case 1:
+					return fmt.Sprintf("- name: Bad%d\n  meta:\n    display: bad%d\n  extends: NoSuchChord%d\n", i, i, i)
+				}
+				return fmt.Sprintf("- name: Bad%d\n  meta:\n    display: bad%d\n  extends: Bad%d\n", i, i, i)
+			})
+		}},
+	{name: "dict-faulty-attrs", cmds: [][]string{{"info", "attr", "list"}, {"write"}},
+		file: "--attr", stdin: "- chord:\n    degree: \"1\"\n    name: \"\"\n  values:\n    - \"1\"\n",
+		input: func(n int) string {
+			return repeatIdx(n, func(i int) string { return fmt.Sprintf("- name: Zq%d\n  degree: \"x%d\"\n", i, i) })
+		}},
 	{name: "dict-attrs", cmds: [][]string{{"info", "attr", "list"}, {"write"}},
 		file: "--attr", stdin: "- chord:\n    degree: \"1\"\n    name: \"\"\n  values:\n    - \"1\"\n",
 		input: func(n int) string {
@@ -91,8 +115,19 @@ func (p *C09) growthCases(seed uint64, tier string) {
 	if tier == "thorough" {
 		sizes = []int{300, 1500, 5000}
 	}
-	for _, n := range sizes {
+	bigN := 4000
+	if tier == "thorough" {
+		bigN = 20000
+	}
+	for _, n := range append(sizes, -1) {
 		for _, d := range growthDims {
+			if n < 0 && !d.big {
+				continue
+			}
+			n := n
+			if n < 0 {
+				n = bigN
+			}
 			for _, cmd := range d.cmds {
 				c := &Case{Property: "C09", Kind: "growth", Seed: seed, Run: 1_000_000 + len(p.cuts),
 					Labels: []string{"fault:F8:overlong", "growth:" + d.name},
@@ -137,8 +172,20 @@ func growthFindings(c *Case, out *Outcome) []Finding {
 		return nil
 	}
 	ratio := float64(tb) / float64(ta)
+	var ma, mb uint64
+	if a.Journal != nil && b.Journal != nil {
+		ma, mb = a.Journal.AllocBytes, b.Journal.AllocBytes
+	}
+	mratio := 0.0
+	if ma > 0 {
+		mratio = float64(mb) / float64(ma)
+	}
 	if GrowthTrace != nil {
-		GrowthTrace(fmt.Sprintf("%-20s %-28s n=%s ticks %d -> %d ratio %.2f", c.Params["dim"], cmd, c.Params["n"], ta, tb, ratio))
+		GrowthTrace(fmt.Sprintf("%-20s %-28s n=%s ticks %d -> %d ratio %.2f; allocated bytes %d -> %d ratio %.2f", c.Params["dim"], cmd, c.Params["n"], ta, tb, ratio, ma, mb, mratio))
+	}
+	if ratio <= growthLimit && mratio > growthLimit && mb > growthMinAlloc {
+		return []Finding{{Signature: fmt.Sprintf("C09/hang/superlinear-memory-traffic/%s/%s", c.Params["dim"], cmd),
+			Detail: fmt.Sprintf("`crd %s`: four times the input (%s -> 4x%s repetitions of the unit, %d -> %d bytes) makes the process allocate %.1f times the bytes (%d -> %d, runtime.MemStats.TotalAlloc at exit) while its own step count grows %.1f-fold: something copies or re-renders what it already had for every new element; linear or n log n work stays below %.0f", strings.Join(c.Steps[0].Argv, " "), c.Params["n"], c.Params["n"], inputLen(&c.Steps[0]), inputLen(&c.Steps[1]), mratio, ma, mb, ratio, growthLimit)}}
 	}
 	if ratio <= growthLimit {
 		return nil
